@@ -5,3 +5,4 @@ import BezierVerif.Props.C01
 import BezierVerif.Props.C09
 import BezierVerif.Props.C10
 import BezierVerif.Props.C19
+import BezierVerif.Props.C18
